@@ -1,0 +1,139 @@
+//! Packet filter hooks: thin facades over the crate-internal `Limiter` (GCRA with an explicit-time
+//! entry point), `Filter` (the two passes of the inbound packet filter) and the process-global
+//! `PERMIT_BAN_LIST`. The facades call the real methods; they add no logic of their own.
+use crate::{
+    node_info::NodeAddress,
+    packet::{Packet, PacketHeader, PacketKind, ProtocolIdentity},
+    socket::{Filter, Limiter, Quota, RateLimitedErr},
+};
+use enr::NodeId;
+use std::{
+    net::{IpAddr, SocketAddr},
+    time::{Duration, Instant},
+};
+
+pub use crate::discv5::PERMIT_BAN_LIST;
+pub use crate::permit_ban::PermitBanList;
+pub use crate::socket::{FilterConfig, RateLimiter, RateLimiterBuilder};
+
+/// The outcome of `Limiter::allows`.
+#[derive(Debug, Clone, Copy, PartialEq, Eq)]
+pub enum Verdict {
+    Ok,
+    TooLarge,
+    /// nanoseconds to wait
+    TooSoon(u128),
+}
+
+/// `Limiter<u64>` with its explicit-time entry points.
+pub struct LimiterFacade {
+    inner: Limiter<u64>,
+}
+
+impl LimiterFacade {
+    /// `Limiter::from_quota(Quota { replenish_all_every, max_tokens })`
+    pub fn from_quota(replenish_all_every: Duration, max_tokens: u64) -> Result<Self, &'static str> {
+        Limiter::from_quota(Quota::verif_new(replenish_all_every, max_tokens))
+            .map(|inner| LimiterFacade { inner })
+    }
+
+    /// `Limiter::allows(time_since_start, &key, tokens)`
+    pub fn allows(&mut self, time_since_start: Duration, key: u64, tokens: u64) -> Verdict {
+        match self.inner.allows(time_since_start, &key, tokens) {
+            Ok(()) => Verdict::Ok,
+            Err(RateLimitedErr::TooLarge) => Verdict::TooLarge,
+            Err(RateLimitedErr::TooSoon(d)) => Verdict::TooSoon(d.as_nanos()),
+        }
+    }
+
+    /// `Limiter::prune(time_limit)`
+    pub fn prune(&mut self, time_limit: Duration) {
+        self.inner.prune(time_limit)
+    }
+
+    /// `(tau, t, tat_per_key)`
+    pub fn state(&self) -> (u64, u64, Vec<(u64, u64)>) {
+        self.inner.verif_state()
+    }
+}
+
+/// Observable state of a `Filter`.
+pub struct FilterDump {
+    /// origin of the rate limiter's clock
+    pub init_time: Option<Instant>,
+    /// keys and TATs (ns since `init_time`) of the total / per-node / per-IP limiters
+    pub total: Vec<u64>,
+    pub node: Option<Vec<(NodeId, u64)>>,
+    pub ip: Option<Vec<(IpAddr, u64)>>,
+    /// node ids recorded per IP, least recently used IP first
+    pub known_addrs: Vec<(IpAddr, Vec<NodeId>)>,
+    /// ban counters per IP, least recently used IP first
+    pub banned_nodes: Vec<(IpAddr, usize)>,
+}
+
+/// The crate-internal `Filter` with public methods.
+pub struct FilterFacade {
+    inner: Filter,
+}
+
+impl FilterFacade {
+    /// `Filter::new(config, ban_duration)`
+    pub fn new(config: FilterConfig, ban_duration: Option<Duration>) -> Self {
+        FilterFacade {
+            inner: Filter::new(config, ban_duration),
+        }
+    }
+
+    /// `Filter::initial_pass(src)`
+    pub fn initial_pass(&mut self, src: &SocketAddr) -> bool {
+        self.inner.initial_pass(src)
+    }
+
+    /// `Filter::final_pass(node_address, packet)`; the packet argument is unused by the filter, an
+    /// empty message packet from that node id is passed.
+    pub fn final_pass(&mut self, node_address: &NodeAddress) -> bool {
+        let packet = Packet {
+            iv: 0,
+            header: PacketHeader {
+                message_nonce: Default::default(),
+                protocol_identity: ProtocolIdentity::default(),
+                kind: PacketKind::Message {
+                    src_id: node_address.node_id,
+                },
+            },
+            message: Vec::new(),
+        };
+        self.inner.final_pass(node_address, &packet)
+    }
+
+    /// `Filter::prune_limiter()`
+    pub fn prune_limiter(&mut self) {
+        self.inner.prune_limiter()
+    }
+
+    pub fn dump(&self) -> FilterDump {
+        let rl = self.inner.verif_rate_limiter();
+        let st = rl.map(|r| r.verif_state());
+        FilterDump {
+            init_time: rl.map(|r| r.verif_init_time()),
+            total: st
+                .as_ref()
+                .map(|s| s.0 .2.iter().map(|(_, t)| *t).collect())
+                .unwrap_or_default(),
+            node: st.as_ref().and_then(|s| s.1.as_ref().map(|l| l.2.clone())),
+            ip: st.as_ref().and_then(|s| s.2.as_ref().map(|l| l.2.clone())),
+            known_addrs: self.inner.verif_known_addrs(),
+            banned_nodes: self.inner.verif_banned_nodes(),
+        }
+    }
+}
+
+/// A copy of the process-global permit/ban list.
+pub fn permit_ban_snapshot() -> PermitBanList {
+    PERMIT_BAN_LIST.read().clone()
+}
+
+/// Replaces the process-global permit/ban list (what `Discv5::new` does with the configured list).
+pub fn permit_ban_reset(list: PermitBanList) {
+    *PERMIT_BAN_LIST.write() = list;
+}
